@@ -173,6 +173,7 @@ func instantiateQuantifiers(facts []*Term, goal *Term) []*Term {
 	if goal != nil {
 		rec(goal)
 	}
+	nGoalApps := len(apps)
 	for _, f := range facts {
 		if f.op != OForall {
 			rec(f)
@@ -183,11 +184,16 @@ func instantiateQuantifiers(facts []*Term, goal *Term) []*Term {
 	count := 0
 	for _, q := range qs {
 		for _, tr := range q.trs {
-			for _, ap := range apps {
+			for ai, ap := range apps {
 				if ap.name != tr.name || tr.pos >= len(ap.args) {
 					continue
 				}
 				inst := Sub(ap.args[tr.pos], tr.rest)
+				// constant instances are only taken from the goal's own terms: long sums over
+				// constant indices would otherwise flood the query
+				if inst.op == OConst && ai >= nGoalApps {
+					continue
+				}
 				if tr.coef.Cmp(bi(1)) != 0 {
 					// select at index c*k + rest: k = (idx - rest) / c, only when it divides syntactically
 					d := inst
